@@ -27,3 +27,27 @@ Theorem C01_posix_complements_bytes : forall name txt rs c,
   In (name, true, txt, rs) table_a -> c < 256 -> in_ranges c rs = negb (in_ranges c (posix_doc (S_ name))).
 Proof. exact posix_neg_rows_a. Qed.
 Print Assumptions C01_posix_complements_bytes.
+
+(* ---- the flat fragment (literals, escaped characters, `?`, `*`), end to end ------------------------------------------
+   For every well-formed token list, every flag word of fnmatch mode under Unix rules (DOTMATCH on or off, any case
+   flags) and str/bytes: the text the parser model produces is the printed form of a regular expression [rs], and under
+   the formal semantics of that regex fragment (C01Flat.M / Mseq: concatenation, lazy star, DOTALL dot, one-character
+   classes, negative/positive look-ahead) [rs] fully matches a name exactly when the documented meaning
+   (C01Flat.Den) holds: `?` = any one character, `*` = any run of characters, except that a leading `.` of the name
+   is matched by a written `.` only (unless DOTMATCH) and a pattern starting with `*` needs a non-empty name. *)
+From WC Require WcParse.
+From WC.Gen Require Consts FlagFuns.
+From WC.Proofs Require C01Flat.
+
+Theorem C01_flat_language : forall flags isb ts,
+  C01Flat.wf ts = true ->
+  WcParse.has flags Consts.Mwcparse.PATHNAME = false -> FlagFuns.is_unix_style WcParse.linux flags = true ->
+  WcParse.has flags Consts.Mwcparse.EXTMATCH = false ->
+  WcParse.has flags Consts.Mwcparse.u_ANCHOR = false -> WcParse.has flags Consts.Mwcparse.MATCHBASE = false ->
+  WcParse.has flags Consts.Mwcparse.u_EXTMATCHBASE = false -> WcParse.has flags Consts.Mwcparse.u_TRANSLATE = false ->
+  exists rs,
+    WcParse.wcparse WcParse.linux flags isb (C01Flat.unparse ts) =
+      inl (S_ "^(?s" ++ (if FlagFuns.get_case WcParse.linux flags then [] else S_ "i") ++ S_ ":" ++ C01Flat.print rs ++ S_ ")$") /\
+    forall n, C01Flat.Mseq rs n [] <-> C01Flat.Den (WcParse.has flags Consts.Mwcparse.DOTMATCH) true ts n.
+Proof. exact C01Flat.C01_flat_language. Qed.
+Print Assumptions C01_flat_language.
